@@ -69,6 +69,14 @@ def run(tier, seed):
                 # every history in which a served version differs from one trusted before, a third of the rest
                 bs = [b for i, b in enumerate(bs) if nontrivial(b) or i % 3 == seed % 3]
             behaviours += bs
+    # consistent snapshots (version-prefixed file names on the wire, fixed names in the datastore): every 2-cycle
+    # history without a root change
+    g, bs = clientlib.generate("MC_Rollback", "MC_Rollback_check.cfg",
+                               {"ChainId": json.dumps("noChange"), "ShipMode": json.dumps("newest"), "V": 2,
+                                "MaxCycles": 2, "Cons": "TRUE"}, "c03-gen-cons")
+    for i, b in enumerate(bs):
+        b["id"] = f"cons-{i}"
+    behaviours += bs
     # three cycles with an intervening failed one: every history (no root change, V=2) in which a cycle that is not
     # the last fails after it has stored at least one document
     g, bs = clientlib.generate("MC_Rollback", "MC_Rollback_check.cfg",
